@@ -52,7 +52,8 @@ def _ceil(ex, node, x):
 
 
 def _frexp(ex, node, v, ref):
-    m, e = fresh("mant"), sp.Symbol(f"expo!{next(itertools.count())}_{id(node) % 9973}", integer=True)
+    _frexp.k = getattr(_frexp, "k", 0) + 1
+    m, e = fresh("mant"), sp.Symbol(f"expo!{_frexp.k}", integer=True)
     ex.facts.append(sp.Eq(sp.sympify(v), m * pow2(e)))
     ref.set(0, e)
     return m
